@@ -40,6 +40,7 @@ def make_sim(ss, rng):
         dt = simkw['dt'] * rng.choice([0.5, 2.0, 1.0, 3.0])
         if calendar: dt = max(1.0, float(int(dt)))
         kw = dict(dt=dt)
+        if calendar and k > 0.7: kw = dict(unit='week', dt=rng.choice([1.0, 2.0]))     # another unit on a calendar sim
         if k > 0.8 and not calendar:
             kw = dict(unit='year', dt=dt, start=2000 + rng.choice([0, 1]), stop=2000 + simkw['dur'] - rng.choice([0, 1]))
         return kw
@@ -89,6 +90,22 @@ def reference_oracle(ctx, ss, sim, executed, label):
             if got != sorted(round(x, 9) for x in vec):
                 ctx.violation(f'{label}: {name}.{fn} invoked at {len(got)} instants, module has {len(vec)} time points',
                               dict(config=label, module=name, func=fn)); return
+    # on calendar sims a module is called at the instant its own clock shows: the date of its time point lies in (previous sim date, current sim date]
+    try:
+        sd = [d.date().toordinal() if hasattr(d, 'date') else None for d in sim.t.datevec]
+        if not sim.t.is_numeric and all(x is not None for x in sd):
+            for e in executed:
+                if e[0] not in names: continue
+                obj = names[e[0]][4]
+                md = obj.t.datevec[e[3]]
+                md = md.date().toordinal() if hasattr(md, 'date') else None
+                if md is None: continue
+                # sim.ti is advanced at the end of each sim instant: a module instant strictly between two sim instants sees the upcoming index
+                hi = sd[e[4]]; lo = sd[e[4] - 1] if e[4] >= 1 else None
+                if (md > hi and e[4] < len(sd) - 1) or (lo is not None and md <= lo):
+                    ctx.violation(f'{label}: {e[0]}.{e[1]} is called while the sim clock shows {sim.t.datevec[e[4]]} but the module\'s own time point {e[3]} is {obj.t.datevec[e[3]]}', dict(config=label, module=e[0], func=e[1])); return
+    except Exception:
+        pass
     # non-decreasing time
     for a, b in zip(executed, executed[1:]):
         if b[2] < a[2] - 1e-9:
@@ -130,9 +147,17 @@ def run(ctx):
     terms, metas = [], []
     n = ctx.n(14, 300)
     mingap = 1e9
+    def forced(c):
+        """calendar sims whose step is not one unit, with modules on another unit / step (always included)"""
+        from harness.probes import ProbeIntv, ProbeAna
+        if c == 0:
+            kw = dict(unit='day', dt=2.0, start='2020-01-01', dur=28)
+            return ss.Sim(n_agents=30, diseases=ss.SIR(unit='week', dt=1.0), networks=ss.RandomNet(), demographics=ss.Deaths(dt=7.0), analyzers=ProbeAna(name='pana0', dt=4.0), verbose=0, **kw), kw
+        kw = dict(unit='week', dt=2.0, start='2020-01-01', dur=12)
+        return ss.Sim(n_agents=30, diseases=ss.SIS(unit='day', dt=7.0), networks=ss.RandomNet(dt=4.0), interventions=ProbeIntv(name='pintv0', unit='week', dt=1.0), verbose=0, **kw), kw
     for c in range(n):
         try:
-            sim, simkw = make_sim(ss, rng)
+            sim, simkw = forced(c) if c < 2 else make_sim(ss, rng)
             sim.init()
         except Exception as E:
             ctx.dist('config rejected by constructor: ' + type(E).__name__); continue
